@@ -389,6 +389,25 @@ func runC07(c *Ctx) {
 	}
 	idf := c.T.Weighted(3, 1, 2, 1, 2)
 	tw := PlanTunnels(c, TunOpts{N: n, Transports: []string{"ws", "legacy"}, IDFormat: idf})
+	// two tunnels may target the same machine on different ports, one of which is down
+	samePair := [2]int{-1, -1}
+	// (at most one of the three special situations below per run)
+	special := c.T.Weighted(5, 2, 2, 2)
+	if special == 1 {
+		i := c.T.Choose(n)
+		j := (i + 1 + c.T.Choose(n-1)) % n
+		a, b := tw.Plans[i], tw.Plans[j]
+		name, _ := splitHostPort(a.UnreachHost)
+		old := b.AllowedHost
+		b.AllowedHost = name + ":3390"
+		for k, h := range tw.Cfg.Hosts {
+			if h == old {
+				tw.Cfg.Hosts[k] = b.AllowedHost
+			}
+		}
+		samePair = [2]int{i, j}
+		a.ForeignHosts = map[string]bool{b.AllowedHost: true}
+	}
 	if !BootTun(c, tw, false) {
 		return
 	}
@@ -419,11 +438,97 @@ func runC07(c *Ctx) {
 			p.CloseReset = c.T.Bool(1, 2)
 		}
 	}
+	if samePair[0] >= 0 {
+		// tunnel a asks for the port that is down first; b (same machine, healthy port) creates
+		// its channel afterwards
+		a, b := tw.Plans[samePair[0]], tw.Plans[samePair[1]]
+		ha := IdealHistory(c, tw, a, 0, nil, false)
+		ha[3] = PChannel(a.UnreachHost, HostUnreachable)
+		if tw.MC.TokenAuth {
+			ha[1] = PTunnelCreate(ValidCookie(c, tw, a, a.UnreachHost), true) // a token for that host
+		}
+		a.Pkts = ha
+		a.CloseAfter = -1
+		b.StartGate = func() bool {
+			for _, t := range tw.Tuns {
+				if t.Plan == a {
+					return len(t.Client.Packets()) >= 4 || t.Client.Ended() || t.Client.Failed != ""
+				}
+			}
+			return true
+		}
+		ds = append(ds, fmt.Sprintf("%s asks for %s (down) before %s asks for %s", a.Name, a.UnreachHost, b.Name, b.AllowedHost))
+		c.S.Count("probe.same_machine_other_port")
+	}
+	// a legacy tunnel that is slow between its two requests while another tunnel ends
+	lateIdx, enderIdx := -1, -1
+	if special == 2 {
+		for i, p := range tw.Plans {
+			if p.Transport == "legacy" && !p.INFirst && lateIdx < 0 && p.StartGate == nil {
+				lateIdx = i
+			}
+		}
+		for i, p := range tw.Plans {
+			if i != lateIdx && p.Transport == "legacy" && p.StartGate == nil && enderIdx < 0 {
+				enderIdx = i
+			}
+		}
+		if lateIdx >= 0 && enderIdx >= 0 {
+			late, ender := tw.Plans[lateIdx], tw.Plans[enderIdx]
+			if ender.CloseAfter < 0 {
+				ender.Pkts = append(ender.Pkts, PClose())
+			}
+			late.SecondGate = func() bool {
+				t := tw.Tuns[enderIdx]
+				return t.closed || t.Client.Ended() || t.Client.Failed != "" || t.Err != ""
+			}
+			ds = append(ds, fmt.Sprintf("%s sends its second request only after %s has ended", late.Name, ender.Name))
+			c.S.Count("probe.half_open_while_another_ends")
+		}
+	}
 	installStalls(c, c.T.Choose(3))
 	tw.Tuns = StartTunnels(c, tw.Plans)
+	// one client may stop reading for good while its host keeps sending: its own business,
+	// every other tunnel goes on
+	deaf := -1
+	if special == 3 {
+		deaf = c.T.Choose(n)
+		dt := tw.Tuns[deaf]
+		if len(dt.Plan.HostScript) == 0 || dt.Plan.StartGate != nil || dt.Plan.SecondGate != nil {
+			deaf = -1
+		} else {
+			stopped := false
+			c.S.AddActor("F deaf client "+dt.Plan.Name, func() bool {
+				if stopped {
+					return false
+				}
+				for _, e := range dt.Client.Events {
+					if e.Kind == "pkt" && e.Pkt.Type == codec.PktData {
+						return true
+					}
+				}
+				return false
+			}, func() {
+				stopped = true
+				for _, e := range c.S.Ends() {
+					if !e.Auto && !e.Owned && !e.Closed && strings.HasPrefix(e.Name, dt.Plan.Name+".") && strings.HasSuffix(e.Name, "'") {
+						e.HoldWrites, e.KeepHold = true, true
+					}
+				}
+				c.S.Count("fault.client.never_reads_again")
+			})
+			ds = append(ds, dt.Plan.Name+" stops reading for good once host data arrives")
+		}
+	}
 	RunTunnels(c, tw.Tuns, 60000)
 	okN := 0
-	for _, t := range tw.Tuns {
+	for ti, t := range tw.Tuns {
+		if ti == deaf {
+			continue // nothing is demanded for a client that does not read
+		}
+		if !t.Client.Ready && t.Client.Failed == "" && t.Err == "" {
+			t.Client.Failed = "the transport was never accepted (no answer to the last request)"
+		}
 		if t.Client.Failed != "" || t.Err != "" {
 			// every tunnel of this scenario sets up fine when it is alone (all other checks do
 			// exactly that); failing only in company is an isolation failure
